@@ -65,6 +65,12 @@ var c14Keys = [][]byte{
 	[]byte("\x1b[<2;10;5M\x1b[<2;10;5m"), []byte("\x1b[<32;12;6M"), []byte("\x1b[<0;0;0M"), []byte("\x1b[<0;10;5M\x1b[<32;11;6M\x1b[<0;11;6m"), []byte("\x1b[M !!"), []byte("\x1b[M\x20\xff\xff"), {0xff, 0xfe}, {0xc3}, {0x00},
 }
 
+// complete key / mouse / paste sequences of xterm-style terminals; bursts end at
+// any prefix of them
+var c14Sequences = []string{"\x1b[A", "\x1b[1;5A", "\x1b[1;2D", "\x1b[1;10C", "\x1b[3~", "\x1b[3;5~", "\x1b[3;2~", "\x1b[2~", "\x1b[5~", "\x1b[6~", "\x1b[5;5~", "\x1b[6;2~", "\x1b[15~", "\x1b[17~", "\x1b[24~", "\x1b[11~",
+	"\x1b[1~", "\x1b[4~", "\x1b[7~", "\x1b[8~", "\x1b[Z", "\x1bOP", "\x1bOS", "\x1bOA", "\x1bOH", "\x1b[H", "\x1b[F", "\x1b[1;5H", "\x1b[200~x\x1b[201~", "\x1b[<0;10;5M", "\x1b[<35;10;5M", "\x1b[<64;1;1M", "\x1b[<0;10;5m",
+	"\x1b[M !!", "\x1b\x1b[A", "\x1b\x1b[3~", "\x1b[27;5;13~", "\x1b[13;2u", "\x1b[97;5u", "\x1b[I", "\x1b[O", "\x1b[1;3A", "\x1b[1;6B", "\x1b[1;7C", "\x1b[1;8D", "\x1b[23;2~", "\x1b[E", "\x1b[3;3~", "\x1b[3;10~", "\x1bO5A", "\x1b[[A"}
+
 var c14Items = []string{"plain", "wide 漢字漢字漢字", "comb ééé", "tab\there", "ctrl \x01\x02\x1f", "esc \x1b[31mred\x1b[m", "inval \xff\xfe\xc3", "", " ", "emoji 🙂👨‍👩‍👧", "rtl שלום", "zero​width", "very-long", "a,b,c", "tail   "}
 
 func c14Session(t *rapid.T) {
@@ -187,6 +193,17 @@ func c14Session(t *rapid.T) {
 			var bs []byte
 			for j := 0; j < k; j++ {
 				bs = append(bs, rapid.SampledFrom(c14Keys).Draw(t, "key")...)
+			}
+			// a burst may end in the middle of a key sequence (the rest arrives late or
+			// never), and a byte of a sequence may be wrong
+			switch rapid.IntRange(0, 5).Draw(t, "tail") {
+			case 0, 1:
+				seq := []byte(rapid.SampledFrom(c14Sequences).Draw(t, "seq"))
+				bs = append(bs, seq[:rapid.IntRange(1, len(seq)).Draw(t, "cut")]...)
+			case 2:
+				seq := append([]byte{}, rapid.SampledFrom(c14Sequences).Draw(t, "seq")...)
+				seq[rapid.IntRange(1, len(seq)-1).Draw(t, "at")] = rapid.SampledFrom([]byte("0159;~AZaz<M[O \x1b\x7f\x00")).Draw(t, "wrong")
+				bs = append(bs, seq[:rapid.IntRange(1, len(seq)).Draw(t, "cut")]...)
 			}
 			step = fmt.Sprintf("keys %q", bs)
 			s.SendHex(bs)
@@ -442,6 +459,67 @@ func TestVerifC14_Regress(t *testing.T) {
 			t.Fatalf("fzf did not exit: %v", history)
 		}
 		vstat.Case("C14/regress", sc.name, true, "script="+sc.name)
+		c14Hygiene(t, s, history, code, false, false)
+	})
+}
+
+// Header lines arriving while the coordinator serves search requests: the
+// reader publishes the header for every line it takes, the coordinator takes
+// snapshots of the list for every query change. The session must keep going.
+func TestVerifC14_HeaderLinesWhileSearching(t *testing.T) {
+	rapid.Check(t, func(t *rapid.T) {
+		n := rapid.SampledFrom([]int{20000, 100000, 300000}).Draw(t, "lines")
+		hl := n
+		if rapid.Bool().Draw(t, "someItems") {
+			hl = n - 1000
+		}
+		viaReload := rapid.Bool().Draw(t, "viaReload")
+		args := []string{"--no-mouse", fmt.Sprintf("--header-lines=%d", hl)}
+		input := []byte("first\n")
+		src := fmt.Sprintf("seq %d", n)
+		if rapid.Bool().Draw(t, "withNth") {
+			args = append(args, "--with-nth=1")
+		}
+		var s *Session
+		if viaReload {
+			s = StartSession(t, SessionCfg{Args: args, Input: input, Width: 80, Height: 12})
+		} else {
+			s = StartSession(t, SessionCfg{Args: args, InputCmd: src, Width: 80, Height: 12})
+		}
+		defer s.Close()
+		history := []string{fmt.Sprintf("fzf %q over %s (reload=%v)", args, src, viaReload)}
+		if viaReload {
+			s.Post("reload(" + src + ")")
+		}
+		posts := rapid.IntRange(20, 120).Draw(t, "posts")
+		for i := 0; i < posts; i++ {
+			a := "put(1)"
+			if i%2 == 1 {
+				a = "backward-delete-char"
+			}
+			if _, err := s.Post(a); err != nil {
+				break
+			}
+		}
+		history = append(history, fmt.Sprintf("%d alternating put(1) / backward-delete-char", posts))
+		want := n - hl
+		st, ok := s.WaitFor(1, func(st *Status) bool { return !st.Reading && st.TotalCount == want })
+		vstat.Case("C14/header-lines-while-searching", strings.Join(history, "|"), true, fmt.Sprintf("reload=%v", viaReload))
+		if !ok {
+			if pt := s.panicText(); pt != "" {
+				t.Fatalf("fzf crashed\nhistory:\n  %s\n%s", strings.Join(history, "\n  "), pt)
+			}
+			t.Fatalf("the input is never loaded completely (state %s, expected %d items)\nhistory:\n  %s\ngoroutines:\n%s", describe(st), want, strings.Join(history, "\n  "), s.GoroutineDump())
+		}
+		s.Post("change-query(zz)")
+		if st, ok := s.WaitFor(1, func(st *Status) bool { return st.Query == "zz" }); !ok {
+			t.Fatalf("fzf stopped executing actions (state %s)\nhistory:\n  %s\ngoroutines:\n%s", describe(st), strings.Join(history, "\n  "), s.GoroutineDump())
+		}
+		s.Post("abort")
+		code, ok := s.WaitExit(20 * time.Second)
+		if !ok {
+			t.Fatalf("fzf did not exit\nhistory:\n  %s\ngoroutines:\n%s", strings.Join(history, "\n  "), s.GoroutineDump())
+		}
 		c14Hygiene(t, s, history, code, false, false)
 	})
 }
